@@ -165,11 +165,14 @@ func (o *order) run(checkForExistingBid bool) {
 	}
 loop:
 	for {
+		o.vt("select", "g", groupch != nil, "sg", storedGroupCh != nil, "sb", shouldBidCh != nil, "cl", clusterch != nil, "pr", pricech != nil, "bd", bidch != nil, "to", bidTimeout != nil, "res", reservation != nil, "won", won, "placed", o.bidPlaced)
 		select {
 		case <-o.lc.ShutdownRequest():
+			o.vt("case", "c", "shutdown")
 			break loop
 
 		case queryBid := <-queryBidCh:
+			o.vt("case", "c", "querybid")
 			err := queryBid.Error()
 			bidFound := true
 			if err != nil {
@@ -189,6 +192,7 @@ loop:
 			storedGroupCh = nil
 
 		case ev := <-o.sub.Events():
+			o.vt("case", "c", "event")
 			switch ev := ev.(type) {
 			case mtypes.EventLeaseCreated:
 
@@ -233,6 +237,7 @@ loop:
 			}
 
 		case result := <-groupch:
+			o.vt("case", "c", "group")
 			// Group details fetched.
 
 			groupch = nil
@@ -251,6 +256,7 @@ loop:
 			})
 
 		case result := <-shouldBidCh:
+			o.vt("case", "c", "shouldbid")
 			shouldBidCh = nil
 
 			if result.Error() != nil {
@@ -275,6 +281,7 @@ loop:
 			}, reservationDuration))
 
 		case result := <-clusterch:
+			o.vt("case", "c", "reserve")
 			clusterch = nil
 
 			if result.Error() != nil {
@@ -307,6 +314,7 @@ loop:
 				return runner.NewResult(o.cfg.PricingStrategy.CalculatePrice(ctx, group.GroupID.Owner, &group.GroupSpec))
 			}, pricingDuration))
 		case result := <-pricech:
+			o.vt("case", "c", "price")
 			pricech = nil
 			if result.Error() != nil {
 				o.log.Error("error calculating price", "err", result.Error())
@@ -330,6 +338,7 @@ loop:
 			})
 
 		case result := <-bidch:
+			o.vt("case", "c", "bid")
 			bidch = nil
 			o.log.Info("bid complete")
 
@@ -345,9 +354,11 @@ loop:
 
 			if o.cfg.BidTimeout > time.Duration(0) {
 				bidTimeout = time.After(o.cfg.BidTimeout)
+				bidTimeout = o.vtTimer(bidTimeout)
 			}
 
 		case <-bidTimeout:
+			o.vt("case", "c", "timeout")
 			o.log.Info("bid timeout, closing bid")
 			orderCompleteCounter.WithLabelValues("bid-timeout").Inc()
 			break loop
@@ -355,6 +366,7 @@ loop:
 	}
 
 	o.log.Info("shutting down")
+	o.vt("exit", "g", groupch != nil, "sg", storedGroupCh != nil, "sb", shouldBidCh != nil, "cl", clusterch != nil, "pr", pricech != nil, "bd", bidch != nil, "to", bidTimeout != nil, "res", reservation != nil, "won", won, "placed", o.bidPlaced)
 	o.lc.ShutdownInitiated(nil)
 	o.sub.Close()
 
@@ -398,6 +410,7 @@ loop:
 	if pricech != nil {
 		<-pricech
 	}
+	o.vt("done", "res", reservation != nil, "won", won, "placed", o.bidPlaced)
 }
 
 func (o *order) shouldBid(group *dtypes.Group) (bool, error) {
